@@ -32,6 +32,8 @@ class World:
                 for k, v in rustsrc.scan_crate_enums(cdir).items():
                     self.enums.setdefault(k, v)
         self.load_s = time.time() - t0
+        from . import explore
+        explore.reset_pool()
         self.source_sha = dump.source_sha()
 
     def interp(self, main, uc=False):
